@@ -20,6 +20,7 @@ ASSUMPTIONS = [
     "text values over the alphabet {a < > & \" ' e-acute space LF ]} + words ]]>, &amp;, <para>, U+1F600; attribute values "
     "without LF; no carriage returns",
     "EML exporter: no node with both content and children, content without pre-escaped entities / para tags",
+    "shapes up to 4 (thorough 5) elements; beyond that the fixed deep / wide / many-attribute trees of scale_trees()",
 ]
 
 ALPHA = ["a", "<", ">", "&", "\"", "'", "é", " ", "\n", "]"]
